@@ -40,18 +40,21 @@ FUNCTIONS_ENCODED = [
     'yaql.standard_library.collections.* (every function registered by collections.register)',
     'yaql.standard_library.system.unpack/with_/op_dot', "the engine's '#finalize' function"]
 BOUNDS = {
-    'quick': 'per registered function: $c a list of unbounded ints, len <= 2, with at most one null element injected '
-             'at a symbolic position (only where the function is defined on null), presented as tuple AND as one-shot '
-             'iterator on the same path; second collection $d len <= 2; integer arguments in [-len-2, len+2]; lambda '
-             'constants symbolic ints; one lambda of the family per condition; real call through the context call API '
-             'with Python-callable lambdas, plus YAQL-text conditions (yaql lambdas $ > $k, $ mod 2 = $r, $ * $k, '
-             '[$, $k], $1 + $2) for the lambda-taking functions; laws len <= 3; 2-operator pipelines (first operator '
-             'fixed per condition, second chosen by a symbolic selector among %d lazy operators) len <= 2, a '
-             'VERIF_SEED-rotated third of the first operators',
-    'thorough': 'same with len($c) <= 3 (<= 4 for functions without lambda), up to two nulls, every lambda of the '
-                'family member (diagonal combinations), every function also through YAQL text (len <= 2), all 2-operator '
-                'pipeline pairs (call API) and a sixth of them through YAQL text, 3-operator pipelines (every second '
-                'first operator, second and third among where/skip/distinct/insert) len <= 1'}
+    'quick': 'per registered function (one condition per case of props/c13_models.py): $c a list of unbounded ints, '
+             'len <= 2 (len <= 1 for a second name of the same payload), with at most one null element injected at a '
+             'symbolic position (only where the function is defined on null and the case is not path-heavy), presented '
+             'as tuple AND as one-shot iterator on the same path; second collection $d len <= 2; integer arguments in '
+             '[-len-1, len+1] inside the documented domain; lambda constants symbolic (unbounded) ints; elements that '
+             'become dictionary keys in 0..1, key constants in -1..2; one lambda of the family per condition through '
+             'the context call API (Python callables), and for a VERIF_SEED-rotated half of the lambda-taking functions '
+             'a second lambda through YAQL text ($ > $k, $ mod 2 = $r, $ * $k, [$, $k], $1 + $2 ...); laws len <= 2 '
+             '(set and thenBy laws: a rotated half); 2-operator pipelines: 3 first operators per run (rotated), the '
+             'second chosen by a symbolic selector among a sixth of the %d lazy operators, len <= 2',
+    'thorough': 'len($c) <= 3 (<= 4 for cheap functions without lambda), up to two nulls, integer arguments in '
+                '[-len-2, len+2], dictionary-key elements in 0..2, every lambda of the family (diagonal combinations) '
+                'through the call API and through YAQL text (len <= 2), laws len <= 3, all 2-operator pipeline pairs '
+                '(call API) and a sixth of them for every second first operator through YAQL text, 3-operator pipelines '
+                '(every second first operator, second and third among where/skip/distinct/insert) len <= 1'}
 OUTSIDE = ['nested collections deeper than one level', 'non-integer elements other than null (strings, floats)',
            'generate/generateMany beyond 5 produced items', 'negative counts of skip/take/slice and zero slice length '
            '(undocumented: surface ValueError from islice)', 'negative list repetition counts, negative splitAt index',
@@ -719,7 +722,8 @@ def conditions(tier, seed):
                             'bounds': '$c.%s.<op2>: op2 by symbolic selector among %s; len($c)<=2; call API'
                                       % (OPS[s1][0], [OPS[x][0] for x in third])})
             sixth = list(range(s1 % 6, NOPS, 6))
-            out.append({'name': 'pipe2[%s|sixth%d|text]' % (OPS[s1][0], s1 % 6), 'func': 'h_pipe', 'timeout': 900,
+            if s1 % 2 == 0:
+                out.append({'name': 'pipe2[%s|sixth%d|text]' % (OPS[s1][0], s1 % 6), 'func': 'h_pipe', 'timeout': 900,
                         'param': {'s1': s1, 'depth': 2, 'mode': 'text', 'n': 2, 's2set': sixth, 'imargin': 1},
                         'bounds': '$c.%s.<op2>: op2 by symbolic selector among %s; len($c)<=2; YAQL text built from '
                                   'the selectors' % (OPS[s1][0], [OPS[x][0] for x in sixth])})
